@@ -48,6 +48,18 @@ def run(chk):
         data = inline(repo, mi, f["data"])
         stages = quant.peel(data)
         names = quant.stage_names(stages)
+        # an alternative route (`data = _own_codes(base, ...)`; `if data is None: <the pipeline>`): on the path where the helper answered, the codes come
+        # from it - not followed; the pipeline on the path where it declined is what the rule judges
+        helper_leaf = any(isinstance(x, ast.Call) and isinstance(x.func, ast.Name) and x.func.id.startswith("_") and not x.func.id.startswith("__") for x in ast.walk(data))
+        helper_cond = any(t is False and " is None" in U(c) and any(isinstance(x, ast.Call) and isinstance(x.func, ast.Name) and x.func.id.startswith("_") for x in ast.walk(c)) for c, t, _ in p.conds)
+        codes_leaf = any(isinstance(x, ast.Attribute) and x.attr == "_data" for x in ast.walk(data)) and any(t is True and "isinstance(" in U(c) and "QBytesTensor" in U(c) for c, t, _ in p.conds) or \
+            any(isinstance(x, ast.Attribute) and x.attr == "_data" for x in ast.walk(data)) and any(t is False and "isinstance(" in U(c) and "QBytesTensor" in U(c) and U(c).startswith("not ") for c, t, _ in p.conds)
+        if codes_leaf and not any(s_[0] == "div" for s_ in stages):
+            chk.unknown("C01.R1", site, f"SymmetricQuantizer.forward: on the path [{' & '.join(p.cond_texts())[:80]}] the base is itself a quantized tensor and its codes are reused: an alternative route, not followed")
+            continue
+        if helper_leaf and helper_cond and not any(s_[0] == "div" for s_ in stages):
+            chk.unknown("C01.R1", site, f"SymmetricQuantizer.forward: on the path [{' & '.join(p.cond_texts())[:80]}] the codes come from a private helper (an alternative route that may decline): not followed")
+            continue
         fn = "SymmetricQuantizer.forward"
         fam = "float8" if fp else "int8"
         # --- expected order
